@@ -118,6 +118,9 @@ func (a *FuncAn) availTransfer(b *ssa.BasicBlock, m availMap) {
 				if ok && e.phi != nil && e.phiAt != nil && a.memPhis != nil {
 					a.memPhis[e.phiAt] = append(a.memPhis[e.phiAt], memPhi{load: x, reps: e.phi})
 				}
+				if ok && e.rep == nil && e.ver != "" && a.loadVer != nil {
+					a.loadVer[x] = e.ver
+				}
 				a.canon[x] = x
 				m[k] = availEnt{p: p, rep: x}
 			}
@@ -136,6 +139,14 @@ func (a *FuncAn) availTransfer(b *ssa.BasicBlock, m availMap) {
 				a.callVer[c] = snapshotVer(m)
 			}
 			a.killByCall(m, a.E.callWrites(a, x))
+			if c, ok := x.(*ssa.Call); ok && a.postAt != nil {
+				a.installPostVersions(c, m)
+			}
+		case *ssa.Return:
+			if a.retSnap != nil {
+				a.retSnap[x] = snapshot(m)
+				a.retVer[x] = snapshotVer(m)
+			}
 		case *ssa.RunDefers:
 			a.killByCall(m, a.E.deferWrites(a))
 		}
@@ -194,7 +205,9 @@ func (a *FuncAn) versionFields(c *ssa.Call, m availMap) {
 				typ: ft, disp: p.disp + "." + st.Field(fi).Name()}
 			k := fp.key()
 			if _, have := m[k]; !have {
-				m[k] = availEnt{p: fp, ver: fmt.Sprintf("v@%p%s", c, k)}
+				ver := fmt.Sprintf("v@%p%s", c, k)
+				m[k] = availEnt{p: fp, ver: ver}
+				a.verCalls[ver] = c
 			}
 		}
 	}
@@ -206,10 +219,15 @@ func (a *FuncAn) computeCanon() {
 	for pass := 0; pass < 50; pass++ {
 		changed := false
 		a.memPhis = map[*ssa.BasicBlock][]memPhi{}
+		a.retSnap, a.retVer = map[*ssa.Return]map[string]ssa.Value{}, map[*ssa.Return]map[string]string{}
+		a.postAt, a.loadVer = map[*ssa.Call]map[string]types.Type{}, map[*ssa.UnOp]string{}
+		if a.verCalls == nil {
+			a.verCalls = map[string]*ssa.Call{}
+		}
 		for _, b := range a.rpo {
 			var in availMap
 			if b == fn.Blocks[0] {
-				in = availMap{}
+				in = a.entryVersions()
 			} else {
 				first := true
 				allKnown := true
@@ -292,12 +310,38 @@ func (a *FuncAn) proverFor(s *State) *prover {
 	if p, ok := a.provers[s]; ok {
 		return p
 	}
+	p := a.buildProver(s, nil)
+	a.provers[s] = p
+	return p
+}
+
+// proverBefore: the prover for the moment right before instruction c executes, from the facts of state s (the entry
+// of c's block). Lemmas are truths about values, valid wherever the values exist — but a lemma about what c or a
+// later instruction produces (the length of its result, the content of a location after it returns) holds only once
+// that instruction has completed normally, and together with the sign of such an atom it implies what the instruction
+// needs in order to complete (len(result) == n and len >= 0 give n >= 0). Establishing a precondition of c from them
+// would be circular, so only lemmas over atoms that exist before c take part.
+func (a *FuncAn) proverBefore(s *State, c ssa.Instruction) *prover {
+	memo := map[*Atom]bool{}
+	return a.buildProver(s, func(l Lin) bool {
+		for _, t := range l.t {
+			if !a.atomBefore(t.a, c, memo, 0) {
+				return false
+			}
+		}
+		return true
+	})
+}
+
+func (a *FuncAn) buildProver(s *State, keep func(Lin) bool) *prover {
 	p := newProver(nil)
 	for _, f := range s.sortedFacts() {
 		p.add(f)
 	}
 	for _, l := range a.lemmas {
-		p.add(l)
+		if keep == nil || keep(l) {
+			p.add(l)
+		}
 	}
 	// disequalities tighten bounds: L >= 0 and L != 0  =>  L - 1 >= 0
 	nk := make([]string, 0, len(s.neq))
@@ -345,6 +389,17 @@ func (a *FuncAn) proverFor(s *State) *prover {
 					break
 				}
 			}
+			if ok && keep != nil {
+				for _, post := range c.post {
+					if !keep(post) {
+						ok = false
+					}
+				}
+				if !ok {
+					fired[i] = true // never applicable under this filter
+					continue
+				}
+			}
 			if ok {
 				fired[i] = true
 				progress = true
@@ -357,9 +412,76 @@ func (a *FuncAn) proverFor(s *State) *prover {
 			break
 		}
 	}
-	a.divisibilityFacts(p)
-	a.provers[s] = p
+	if keep == nil {
+		a.divisibilityFacts(p)
+	}
 	return p
+}
+
+// atomBefore: the value the atom stands for exists before instruction c executes: it is a parameter, constant or
+// global, the entry content of a caller-owned location, or it is produced by an instruction that precedes c in c's
+// block or sits in a block that dominates c's.
+func (a *FuncAn) atomBefore(at *Atom, c ssa.Instruction, memo map[*Atom]bool, depth int) bool {
+	if r, ok := memo[at]; ok {
+		return r
+	}
+	memo[at] = false
+	r := a.atomBefore0(at, c, memo, depth)
+	memo[at] = r
+	return r
+}
+
+func instrBefore(i, c ssa.Instruction) bool {
+	if i == c {
+		return false
+	}
+	if i.Block() == c.Block() {
+		return precedes(i.Block(), i, c)
+	}
+	return i.Block().Dominates(c.Block())
+}
+
+func valueBefore(v ssa.Value, c ssa.Instruction) bool {
+	switch x := v.(type) {
+	case *ssa.Parameter, *ssa.Const, *ssa.Global, *ssa.FreeVar, *ssa.Function, *ssa.Builtin:
+		return true
+	case ssa.Instruction:
+		return instrBefore(x, c)
+	}
+	return false
+}
+
+func (a *FuncAn) atomBefore0(at *Atom, c ssa.Instruction, memo map[*Atom]bool, depth int) bool {
+	if depth > 8 {
+		return false
+	}
+	if deps := a.atomDeps[at]; len(deps) > 0 {
+		for _, d := range deps {
+			if !a.atomBefore(d, c, memo, depth+1) {
+				return false
+			}
+		}
+		return true
+	}
+	if v := a.atomVal[at]; v != nil {
+		return valueBefore(v, c)
+	}
+	if v := a.lenAtomOf[at]; v != nil {
+		return valueBefore(v, c)
+	}
+	if v := a.capAtomOf[at]; v != nil {
+		return valueBefore(v, c)
+	}
+	if ld := a.atomLoad[at]; ld != nil {
+		return instrBefore(ld, c)
+	}
+	if fl := a.fieldAtomOf[at]; fl != nil {
+		return valueBefore(a.cv(fl.X), c) && instrBefore(fl, c)
+	}
+	if ver, ok := a.atomVer[at]; ok {
+		return a.versionBefore(ver, c)
+	}
+	return false
 }
 
 // divisibilityFacts: where x%k == 0 is known for an atom x (x == k*q), every fact that mentions x is restated over the
@@ -1165,6 +1287,7 @@ func (a *FuncAn) run() {
 	}
 	a.computeCanon()
 	a.purify()
+	a.postLemmas()
 	// pre-evaluate every integer / sequence value so that lemmas do not depend on query order
 	for _, b := range a.rpo {
 		for _, ins := range b.Instrs {
